@@ -18,6 +18,8 @@ from __future__ import annotations
 import copy
 import json
 import random
+import shutil
+import os
 import re
 import signal
 import warnings
@@ -452,6 +454,58 @@ def check_json_generic_shapes(ctx, seed):
                     judge_json(ctx, d if via == "dict" else json.dumps(d).encode(), clazz, f"generic-type-swap:{'/'.join(map(str, path))}", w0, via)
 
 
+def check_xinclude_faults(ctx):
+    """Directed: documents whose xi:include elements are faulty, parsed with process_xinclude=True by both handlers.
+    (A missing *file* is an I/O error of the caller's resource, like a missing source document, and is not judged.)"""
+    import tempfile
+
+    from xsdata.formats.dataclass.context import XmlContext
+    from xsdata.formats.dataclass.parsers import XmlParser
+    from xsdata.formats.dataclass.parsers.config import ParserConfig
+
+    from vf.props.c15_models import R
+
+    xi = 'xmlns:xi="http://www.w3.org/2001/XInclude"'
+    docs = {
+        "ok": f'<R {xi}><xi:include href="good.xml"/></R>',
+        "bad-parse-value": f'<R {xi}><xi:include href="good.xml" parse="bogus"/></R>',
+        "fallback-misplaced": f'<R {xi}><xi:fallback/></R>',
+        "included-file-malformed": f'<R {xi}><xi:include href="bad.xml"/></R>',
+        "recursive": f'<R {xi}><xi:include href="self.xml"/></R>',
+        "include-with-children": f'<R {xi}><xi:include href="good.xml"><inc>2</inc></xi:include></R>',
+        "two-fallbacks": f'<R {xi}><xi:include href="nope.xml"><xi:fallback/><xi:fallback/></xi:include></R>',
+        "included-text-into-int": f'<R {xi}><inc><xi:include href="good.xml" parse="text"/></inc></R>',
+        "bad-xpointer": f'<R {xi}><xi:include href="good.xml" xpointer="xpointer(///)"/></R>',
+    }
+    tmp = tempfile.mkdtemp(prefix="xsdata-verif-c15-xi-")
+    try:
+        for name, text in (("good.xml", "<inc>1</inc>"), ("bad.xml", "<bad"), ("self.xml", docs["recursive"])):
+            with open(os.path.join(tmp, name), "w") as f:
+                f.write(text)
+        for label, doc in docs.items():
+            path = os.path.join(tmp, "doc.xml")
+            with open(path, "w") as f:
+                f.write(doc)
+            for handler in bc.HANDLERS:
+                ctx.case("xinclude", label, handler)
+                ctx.feature("fault:xinclude")
+                p = XmlParser(context=XmlContext(), handler=bc.handler_cls(handler), config=ParserConfig(process_xinclude=True, base_url=tmp + "/"))
+                try:
+                    with warnings.catch_warnings():
+                        warnings.simplefilter("ignore")
+                        res = p.parse(path, R)
+                    if not isinstance(res, R):
+                        ctx.violation(f"wrong-result-type/{handler}/xinclude", f"{label}: returned {type(res).__name__}", {"fn": "xinclude", "label": label})
+                except allowed():
+                    pass
+                except OSError:
+                    ctx.feature("xinclude:io-error-not-judged")
+                except BaseException as e:  # noqa: BLE001
+                    ctx.violation(f"leaks/{type(e).__name__}/xinclude/{handler}/{label}", f"{type(e).__module__}.{type(e).__name__}: {e}\n{doc}", {"fn": "xinclude", "label": label})
+    finally:
+        shutil.rmtree(tmp, ignore_errors=True)
+
+
 def check_random_bytes(ctx, seed, clazz_case):
     rng = random.Random(seed)
     model, style, loaded, obj = clazz_case
@@ -474,6 +528,9 @@ def check_random_bytes(ctx, seed, clazz_case):
 
 def replay(witness, ctx):
     install_hooks(ctx)
+    if witness.get("fn") in ("xinclude", "json-generic"):
+        ctx.inconc("directed witnesses are fixed documents: re-run the check")
+        return
     if witness.get("fn") == "random-bytes":
         ctx.inconc("random-bytes witnesses carry their input in `faulted`; re-run the check with the same seed")
         return
@@ -495,6 +552,7 @@ def run_shard(ctx):
     rng = ctx.rng
     if ctx.shard == 0:
         check_json_generic_shapes(ctx, ctx.seed)
+        check_xinclude_faults(ctx)
     n_models = ctx.per_shard(ctx.pick(450, 9000))
     min_d = MIN_DISTINCT[ctx.tier] // ctx.nshards + 1
     max_len = ctx.pick(700, 4096)
